@@ -78,24 +78,39 @@ func noteUndecided(c *Ctx, m *Model, r *E1, rule string) {
 				c.Undecide(rule, h.Key+"#"+n, m.P.Pos(h.Fn.Pos()), "construct not modelled by the effect analysis: "+n)
 			}
 		}
-		// every state effect on a committed path has had its error looked at: an ORM write or bank call
-		// whose error value is overwritten or dropped may have failed (a unique or primary-key
-		// constraint is how the ORM says "already there") while the handler reports success
-		for _, o := range h.Outs {
-			for i := range o.St.events {
-				ev := &o.St.events[i]
-				if !isEffect(ev) || ev.ErrID == 0 || !inScope(o, ev) || o.St.errs[ev.ErrID] == 1 || !callYieldsError(ev.Pos) {
-					continue
-				}
-				k := h.Key + "#unchecked-error:" + siteKey(ev)
-				if seen[k] {
-					continue
-				}
-				seen[k] = true
-				c.Violate(rule, k, m.P.Pos(ev.Pos.Pos()), "the error of "+describeEvent(o.St, ev)+" is not tested on a path on which the handler succeeds {"+outcomeLabel(h, o)+"}: the write may have been refused (constraint violation) and the message still succeeds", nil)
+		effectErrorsOf(c, m, h, rule, seen)
+	}
+}
+
+// effectErrorsOf: every state effect on a committed path has had its error looked at AND found nil: an ORM
+// write or bank call whose error value is overwritten, dropped, or classified and then tolerated (a unique
+// or primary-key constraint is how the ORM says "already there") did not happen, while the handler goes
+// on — and reports success — as if it had.
+func effectErrorsOf(c *Ctx, m *Model, h *HandlerResult, rule string, seen map[string]bool) int {
+	n := 0
+	for _, o := range h.Outs {
+		for i := range o.St.events {
+			ev := &o.St.events[i]
+			if !isEffect(ev) || ev.ErrID == 0 || !inScope(o, ev) || !callYieldsError(ev.Pos) {
+				continue
 			}
+			n++
+			if o.St.errs[ev.ErrID] == 1 {
+				continue
+			}
+			k := h.Key + "#unchecked-error:" + siteKey(ev)
+			if seen[k] {
+				continue
+			}
+			seen[k] = true
+			what := "is not tested"
+			if o.St.errs[ev.ErrID] == 2 {
+				what = "is known to be non-nil (the failure is tolerated)"
+			}
+			c.Violate(rule, k, m.P.Pos(ev.Pos.Pos()), "the error of "+describeEvent(o.St, ev)+" "+what+" on a path on which the handler succeeds {"+outcomeLabel(h, o)+"}: the write may have been refused (constraint violation) and the message still succeeds", nil)
 		}
 	}
+	return n
 }
 
 // callYieldsError: the call instruction has an error among its results.
@@ -322,6 +337,9 @@ func (h *HandlerResult) storedPrecise(o *Outcome, d ColDelta) (bool, string) {
 		}
 		if !strings.Contains(at.Fixed, "CreditType#") || !strings.HasSuffix(at.Fixed, ".Precision") {
 			return false, "request amount " + base + " is gated by " + at.Fixed + ", which is not a CreditType.Precision"
+		}
+		if ok, why := h.precisionOfBatch(st, at.Fixed, d.Batch); !ok {
+			return false, "request amount " + base + " is gated by " + at.Fixed + ", which is not the precision of the credit type of this row's batch (" + d.Batch + "): " + why + " [lookups: " + strings.Join(originChain(st, at.Fixed), " <- ") + "]"
 		}
 	}
 	return true, ""
@@ -1772,4 +1790,142 @@ func ruleSupplyCovered(c *Ctx, m *Model, r *E1, rule string) {
 		}
 	}
 	c.Min("BatchSupply insert sites covered", 2, n)
+}
+
+var rowRefRe = regexp.MustCompile(`[A-Za-z]+#[0-9]+`)
+
+// originChain lists, transitively, the rows mentioned in the lookup keys through which a value was obtained.
+func originChain(st *State, term string) []string {
+	var out []string
+	seen := map[string]bool{}
+	var walk func(t string)
+	walk = func(t string) {
+		for _, ref := range rowRefRe.FindAllString(t, -1) {
+			if seen[ref] {
+				continue
+			}
+			seen[ref] = true
+			var id int
+			fmt.Sscanf(ref[strings.Index(ref, "#")+1:], "%d", &id)
+			o := st.mem[id]
+			if o == nil {
+				out = append(out, ref+"=?")
+				continue
+			}
+			out = append(out, ref+"="+o.Origin)
+			walk(o.Origin)
+		}
+	}
+	walk(term)
+	return out
+}
+
+var creditTypeRowRe = regexp.MustCompile(`CreditType#([0-9]+)\.Precision`)
+
+// precisionOfBatch: "no more decimal places than the credit type's precision" means the precision of the
+// credit type of the class of *the batch whose row is written*. The CreditType row behind `fixed` must have
+// been fetched by the CreditTypeAbbrev column of a Class row that is tied to that batch — looked up by the
+// class id parsed out of the batch's denom, or by the ClassKey of the project the batch row points to — or by
+// a column that a path fact equates with such a Class row's CreditTypeAbbrev (basket Put compares the
+// basket's credit type with the class's before it converts).
+func (h *HandlerResult) precisionOfBatch(st *State, fixed, batch string) (bool, string) {
+	m := creditTypeRowRe.FindStringSubmatch(fixed)
+	if m == nil {
+		return false, "no CreditType row behind the precision"
+	}
+	var id int
+	fmt.Sscanf(m[1], "%d", &id)
+	ct := st.mem[id]
+	if ct == nil {
+		return false, "the CreditType row is not a known object"
+	}
+	key, ok := originArg(ct.Origin, "get:Get(")
+	if !ok {
+		return false, "the CreditType row was not fetched by its primary key (" + ct.Origin + ")"
+	}
+	key = st.find(key)
+	ent := h.X.batchEntities(st)
+	// batch objects of the entity
+	var batchObjs []*Obj
+	for _, o := range st.mem {
+		if o.Table == nil || o.Table.Name != "Batch" {
+			continue
+		}
+		for _, nm := range []string{st.find(o.Name + ".Key"), st.find(o.Name + ".Denom"), fieldCanon(st, o, ".Key"), fieldCanon(st, o, ".Denom")} {
+			if nm != "" && ent[nm] == batch {
+				batchObjs = append(batchObjs, o)
+				break
+			}
+		}
+	}
+	sameStr := func(a, b string) bool {
+		a, b = st.find(a), st.find(b)
+		return a == b || st.factSet["+StrEq("+a+", "+b+")"] || st.factSet["+StrEq("+b+", "+a+")"]
+	}
+	tied := func(cl *Obj) bool {
+		if d, ok := originArg(cl.Origin, "get:GetById(GetClassIDFromBatchDenom("); ok {
+			d = strings.TrimSuffix(d, ")")
+			if ent[st.find(d)] == batch {
+				return true
+			}
+		}
+		if pk, ok := originArg(cl.Origin, "get:Get("); ok && strings.HasSuffix(pk, ".ClassKey") {
+			pname := strings.TrimSuffix(pk, ".ClassKey")
+			var proj *Obj
+			for _, o := range st.mem {
+				if o.Name == pname && o.Table != nil && o.Table.Name == "Project" {
+					proj = o
+				}
+			}
+			if proj == nil {
+				return false
+			}
+			pkeys := []string{st.find(proj.Name + ".Key"), fieldCanon(st, proj, ".Key")}
+			if a, ok := originArg(proj.Origin, "get:Get("); ok {
+				pkeys = append(pkeys, st.find(a))
+			}
+			for _, b := range batchObjs {
+				for _, bk := range []string{st.find(b.Name + ".ProjectKey"), fieldCanon(st, b, ".ProjectKey")} {
+					for _, k := range pkeys {
+						if bk != "" && k != "" && bk == k {
+							return true
+						}
+					}
+				}
+			}
+		}
+		return false
+	}
+	var seen []string
+	for _, o := range st.mem {
+		if o.Table == nil || o.Table.Name != "Class" || o.Kind != "row" {
+			continue
+		}
+		if !sameStr(key, o.Name+".CreditTypeAbbrev") && !(fieldCanon(st, o, ".CreditTypeAbbrev") != "" && sameStr(key, fieldCanon(st, o, ".CreditTypeAbbrev"))) {
+			continue
+		}
+		seen = append(seen, o.Name+"="+o.Origin)
+		if tied(o) {
+			return true, ""
+		}
+	}
+	sort.Strings(seen)
+	if len(seen) == 0 {
+		return false, "the credit type was looked up by " + key + ", which is not (and is not compared with) the CreditTypeAbbrev of any Class row read on this path"
+	}
+	return false, "the credit type belongs to " + strings.Join(seen, ", ") + ", none of which is the class of this batch"
+}
+
+func originArg(origin, prefix string) (string, bool) {
+	if !strings.HasPrefix(origin, prefix) || !strings.HasSuffix(origin, ")") {
+		return "", false
+	}
+	return origin[len(prefix) : len(origin)-1], true
+}
+
+func fieldCanon(st *State, o *Obj, f string) string {
+	if v, ok := o.F[f]; ok && v != nil {
+		return st.canon(v)
+	}
+	return ""
 }
